@@ -14,6 +14,7 @@
  4. error-norm clause (measured): constants, resonant vectors, large dynamic range and random inputs against an
     80-bit long double evaluation of the documented map; TLC checks  ||err||^2 2^106 <= (8 log2 2m)^2 ||exact||^2.
 """
+import ctypes
 import math
 import random
 import struct
@@ -182,6 +183,37 @@ def drive(rec, ms, quick):
                     unchanged = True if blk is None else (L.snapshot_blocks([blk]) == snap)
                     events.append({"e": "Same", "identical": bool(same), "table_unchanged": bool(unchanged),
                                    "_what": "%s m=%d mask=%d: repeated call / table bytes" % (name, m, mask)})
+        # ---------------- library-owned work buffers (new_*_precomp(m, num_buffers), *_precomp_get_buffer): the transform run inside
+        # them must equal the transform run in a caller array, before and after, and the buffers must not overlap each other
+        for tr in ("fft", "ifft"):
+            for layout in ("reim", "cplx"):
+                for mask in (MASK_NONE, MASK_GENERIC):
+                    if not rec.progress("%s_%s m=%d work buffers mask=%d" % (layout, tr, m, mask)):
+                        continue
+                    t = tables.get("new_%s_%s_precomp" % (layout, tr), m, mask, ("w", 2))
+                    fn = L.fn("%s_%s" % (layout, tr), "v pp")
+                    getb = L.fn("%s_%s_precomp_get_buffer" % (layout, tr), "p pw")
+                    g = np.random.default_rng(rng.randrange(1 << 30))
+                    z = g.standard_normal(2 * m)
+                    outs = []
+                    addrs = [getb(t, 0), getb(t, 1)]
+                    for where in ("caller", 0, 1, "caller", 0):
+                        if where == "caller":
+                            d = Buf(16 * m, fill=0)
+                            d.f64[:] = z
+                            fn(t, d.addr)
+                            outs.append(d.f64.copy() if d.canaries_ok() else None)
+                        else:
+                            arr = np.ctypeslib.as_array(ctypes.cast(addrs[where], ctypes.POINTER(ctypes.c_double)), shape=(2 * m,))
+                            arr[:] = z
+                            fn(t, addrs[where])
+                            outs.append(arr.copy())
+                    rec.case(("buffers", layout, tr, m, mask), nontrivial=m > 1)
+                    same = all(o is not None and np.array_equal(o.view(np.uint64), outs[0].view(np.uint64)) for o in outs)
+                    disjoint = abs(addrs[1] - addrs[0]) >= 16 * m and addrs[0] % 32 == 0 and addrs[1] % 32 == 0
+                    events.append({"e": "Same", "identical": bool(same), "table_unchanged": bool(disjoint),
+                                   "_what": "%s_%s m=%d mask=%d: caller array / work buffer 0 / work buffer 1 / caller array / work buffer 0" % (
+                                       layout, tr, m, mask)})
     rec.data["events"] = events
 
 
